@@ -45,8 +45,27 @@ func withDeadline(what string, d time.Duration, f func()) {
 	}
 }
 
-func workRound(r *rng, round int) {
-	nItems := 1 + r.intn(40)
+// rwork: one par.Work over a random item graph, with the counters of the direct oracles.
+type rwork struct {
+	round, n     int
+	g            [][]int
+	inits        []int
+	val          func(i int) any
+	ids          map[any]int
+	reach        map[int]bool
+	begun, ended []int32
+	active       int32
+	maxActive    int32
+	w            par.Work
+	inside       func(i int) // runs inside f(i) after its Adds
+}
+
+type privItem struct{ owner, id int }
+
+// newRwork: owner < 0: the items are values shared by every Work of the process (mixed dynamic types); owner >= 0: the
+// items are private to this Work.
+func newRwork(r *rng, round, maxItems, owner int) *rwork {
+	nItems := 1 + r.intn(maxItems)
 	n := 1 + r.intn(8)
 	if r.intn(60) == 0 {
 		n = []int{257, 300, 1000}[r.intn(3)] // more runners than any sensible cap
@@ -66,6 +85,9 @@ func workRound(r *rng, round int) {
 	// item id i is a Go value of mixed dynamic type; distinct ids are distinct under == but share printed forms
 	ptrs := map[int]*pt{}
 	val := func(i int) any {
+		if owner >= 0 && i%8 < 6 {
+			return privItem{owner, i}
+		}
 		g := i / 8
 		switch i % 8 {
 		case 0:
@@ -106,51 +128,120 @@ func workRound(r *rng, round int) {
 	for _, i := range inits {
 		dfs(i)
 	}
-	begun := make([]int32, nItems)
-	ended := make([]int32, nItems)
-	var active, maxActive int32
-	var w par.Work
-	for _, i := range inits {
-		w.Add(val(i))
+	return &rwork{round: round, n: n, g: g, inits: inits, val: val, ids: ids, reach: reach,
+		begun: make([]int32, nItems), ended: make([]int32, nItems)}
+}
+
+func (x *rwork) fill() {
+	for _, i := range x.inits {
+		x.w.Add(x.val(i))
 	}
-	withDeadline(fmt.Sprintf("Work.Do round %d (n=%d, %d items)", round, n, nItems), 25*time.Second, func() {
-		w.Do(n, func(item any) {
-			i, known := ids[item]
-			if !known {
-				fail("exactly-once", fmt.Sprintf("round %d: f called with %#v, which was never added", round, item))
-			}
-			a := atomic.AddInt32(&active, 1)
-			for {
-				m := atomic.LoadInt32(&maxActive)
-				if a <= m || atomic.CompareAndSwapInt32(&maxActive, m, a) {
-					break
-				}
-			}
-			atomic.AddInt32(&begun[i], 1)
-			for _, c := range g[i] {
-				if r := c % 3; r == 0 {
-					runtime.Gosched()
-				}
-				w.Add(val(c))
-			}
-			atomic.AddInt32(&ended[i], 1)
-			atomic.AddInt32(&active, -1)
-		})
-	})
-	if a := atomic.LoadInt32(&active); a != 0 {
+}
+
+func (x *rwork) f(item any) {
+	i, known := x.ids[item]
+	if !known {
+		fail("exactly-once", fmt.Sprintf("round %d: f called with %#v, which was never added to this Work", x.round, item))
+	}
+	a := atomic.AddInt32(&x.active, 1)
+	for {
+		m := atomic.LoadInt32(&x.maxActive)
+		if a <= m || atomic.CompareAndSwapInt32(&x.maxActive, m, a) {
+			break
+		}
+	}
+	atomic.AddInt32(&x.begun[i], 1)
+	for _, c := range x.g[i] {
+		if r := c % 3; r == 0 {
+			runtime.Gosched()
+		}
+		x.w.Add(x.val(c))
+	}
+	if x.inside != nil {
+		x.inside(i)
+	}
+	atomic.AddInt32(&x.ended[i], 1)
+	atomic.AddInt32(&x.active, -1)
+}
+
+func (x *rwork) check() {
+	round, n := x.round, x.n
+	if a := atomic.LoadInt32(&x.active); a != 0 {
 		fail("do-returns-when-done", fmt.Sprintf("round %d: %d calls of f still in progress when Do returned", round, a))
 	}
-	if m := atomic.LoadInt32(&maxActive); int(m) > n {
+	if m := atomic.LoadInt32(&x.maxActive); int(m) > n {
 		fail("at-most-n", fmt.Sprintf("round %d: %d calls of f in progress with n=%d", round, m, n))
 	}
-	for i := range g {
+	for i := range x.g {
 		want := int32(0)
-		if reach[i] {
+		if x.reach[i] {
 			want = 1
 		}
-		if b, e := atomic.LoadInt32(&begun[i]), atomic.LoadInt32(&ended[i]); b != want || e != want {
+		if b, e := atomic.LoadInt32(&x.begun[i]), atomic.LoadInt32(&x.ended[i]); b != want || e != want {
 			fail("exactly-once", fmt.Sprintf("round %d: item %d begun %d ended %d, want %d", round, i, b, e, want))
 		}
+	}
+}
+
+func workRound(r *rng, round int) {
+	if round%6 == 5 {
+		objectsRound(r, round)
+		return
+	}
+	x := newRwork(r, round, 40, -1)
+	x.fill()
+	withDeadline(fmt.Sprintf("Work.Do round %d (n=%d, %d items)", round, x.n, len(x.g)), 25*time.Second, func() {
+		x.w.Do(x.n, x.f)
+	})
+	x.check()
+}
+
+// objectsRound: several Work values alive at the same time (filled first, then run concurrently), and Works run from
+// inside f of another Work.  Distinct Work values share nothing: under the race detector any memory they have in
+// common shows up as a data race, and the per-Work oracles as foreign / missing items.
+func objectsRound(r *rng, round int) {
+	k := 2 + r.intn(2)
+	ws := make([]*rwork, k)
+	for j := range ws {
+		owner := -1
+		if r.intn(2) == 0 {
+			owner = j
+		}
+		ws[j] = newRwork(r, round, 12, owner)
+		if ws[j].n > 8 {
+			ws[j].n = 8
+		}
+	}
+	nested := r.intn(2) == 0
+	if nested {
+		// every call of f of the first Work runs a fresh Work of its own (items private to it)
+		seeds := make([]uint64, len(ws[0].g))
+		for i := range seeds {
+			seeds[i] = r.next()
+		}
+		ws[0].inside = func(i int) {
+			in := newRwork(&rng{seeds[i]}, round, 6, 100+i)
+			if in.n > 3 {
+				in.n = 3
+			}
+			in.fill()
+			in.w.Do(in.n, in.f)
+			in.check()
+		}
+	}
+	for _, x := range ws {
+		x.fill()
+	}
+	withDeadline(fmt.Sprintf("round %d: %d Work values run concurrently (nested: %v)", round, k, nested), 25*time.Second, func() {
+		var wg sync.WaitGroup
+		for _, x := range ws {
+			wg.Add(1)
+			go func(x *rwork) { defer wg.Done(); x.w.Do(x.n, x.f) }(x)
+		}
+		wg.Wait()
+	})
+	for _, x := range ws {
+		x.check()
 	}
 }
 
